@@ -65,6 +65,63 @@ theorem cli_normalisers :
       ("family", "_cli_check_family(args.family, args.data_dir)"), ("readfmt1", "_cli_check_readfmt(args.readfmt1)"),
       ("readfmt2", "_cli_check_readfmt(args.readfmt2)")] := by decide
 
+
+/-! ### every handler: which library call produces the value, with which arguments
+
+`handlerCalls` is regenerated from the handlers' syntax trees with the positional arguments bound to the parameter names of
+the callee (taken from the callee's own `def`), so "forwards the data directory" is a statement about the parameter
+`data_dir` of the function called, not about argument positions. -/
+
+def hasPrefix (p s : String) : Bool := p.toList.isPrefixOf s.toList
+
+/-- the option-carried arguments of the library calls of the handler of a sub-command -/
+def wiringOf (sub : String) : List (String × List (String × String)) :=
+  match handlerMap.find? (·.1 == sub) with
+  | none => []
+  | some (_, h) =>
+    (((handlerCalls.find? (·.1 == h)).map (·.2)).getD []).map fun c => (c.1, c.2.filter (fun kv => hasPrefix "args." kv.2 || hasPrefix "not args." kv.2))
+
+/-- **the value printed is the value of the API call itself** for the sub-commands that return data of one API function:
+the whole handler is `return api.f(...)` -/
+theorem cli_returns_the_api_value :
+    ∀ p ∈ [("get-basis", "api.get_basis"), ("get-refs", "api.get_references"), ("get-notes", "api.get_basis_notes"),
+            ("get-family", "api.get_basis_family"), ("get-family-notes", "api.get_family_notes"), ("get-data-dir", "api.get_data_dir")],
+      ((handlerMap.find? (·.1 == p.1)).bind fun sh => (handlerReturnsCall.find? (·.1 == sh.2)).map (·.2)) = some (some p.2) := by decide
+
+/-- **same basis, format, elements, version, role, family, files and data directory**: each handler hands the API exactly
+the (normalised) option values, each to the parameter of that meaning -/
+theorem cli_calls_forward :
+    wiringOf "get-notes" = [("api.get_basis_notes", [("name", "args.basis"), ("data_dir", "args.data_dir")])]
+    ∧ wiringOf "get-family" = [("api.get_basis_family", [("basis_name", "args.basis"), ("data_dir", "args.data_dir")])]
+    ∧ wiringOf "get-family-notes" = [("api.get_family_notes", [("family", "args.family"), ("data_dir", "args.data_dir")])]
+    ∧ wiringOf "lookup-by-role" = [("api.lookup_basis_by_role", [("primary_basis", "args.basis"), ("role", "args.role"), ("data_dir", "args.data_dir")])]
+    ∧ wiringOf "get-info" = [("api.get_metadata", [("data_dir", "args.data_dir")])]
+    ∧ wiringOf "get-versions" = [("api.get_metadata", [("data_dir", "args.data_dir")])]
+    ∧ wiringOf "list-families" = [("api.get_families", [("data_dir", "args.data_dir")])]
+    ∧ wiringOf "list-basis-sets" = [("api.filter_basis_sets", [("substr", "args.substr"), ("family", "args.family"), ("role", "args.role"),
+          ("elements", "args.elements"), ("data_dir", "args.data_dir")])]
+    ∧ wiringOf "convert-basis" = [("convert.convert_formatted_basis_file", [("file_path_in", "args.input_file"), ("file_path_out", "args.output_file"),
+          ("in_fmt", "args.in_fmt"), ("out_fmt", "args.out_fmt"), ("make_gen", "args.make_gen")])]
+    ∧ wiringOf "create-bundle" = [("bundle.create_bundle", [("outfile", "args.bundle_file"), ("fmt", "args.fmt"), ("reffmt", "args.reffmt"),
+          ("archive_type", "args.archive_type"), ("data_dir", "args.data_dir")])]
+    ∧ wiringOf "autoaux-basis" = [("readers.read_formatted_basis_file", [("file_path", "args.input_file"), ("basis_fmt", "args.in_fmt")]),
+          ("manip.autoaux_basis", []), ("writers.write_formatted_basis_file", [("outfile_path", "args.output_file"), ("basis_fmt", "args.out_fmt")])]
+    ∧ wiringOf "autoabs-basis" = [("readers.read_formatted_basis_file", [("file_path", "args.input_file"), ("basis_fmt", "args.in_fmt")]),
+          ("manip.autoabs_basis", []), ("writers.write_formatted_basis_file", [("outfile_path", "args.output_file"), ("basis_fmt", "args.out_fmt")])] := by
+  refine ⟨?_, ?_, ?_, ?_, ?_, ?_, ?_, ?_, ?_, ?_, ?_, ?_⟩ <;> decide +kernel
+
+/-- **no handler that takes `--data-dir` into account forgets it**: whenever a handler calls an `api` / `bundle` function with
+option values at all, the data directory is among them (a call that dropped it would silently answer from the shipped store) -/
+theorem cli_data_dir_forwarded :
+    ∀ h ∈ handlerCalls, ∀ c ∈ h.2, (hasPrefix "api." c.1 || hasPrefix "bundle." c.1) = true → c.2.isEmpty = false →
+      c.2.contains ("data_dir", "args.data_dir") = true := by
+  have h : (handlerCalls.all fun h => h.2.all fun c =>
+      !(hasPrefix "api." c.1 || hasPrefix "bundle." c.1) || c.2.isEmpty || c.2.contains ("data_dir", "args.data_dir")) = true := by decide +kernel
+  intro hh hhm c hc h1 h2
+  have := List.all_eq_true.1 (List.all_eq_true.1 h hh hhm) c hc
+  simp only [h1, h2, Bool.not_true, Bool.false_or] at this
+  exact this
+
 example : dests "get-basis" ≠ [] ∧ apiDefault "header" = some "True" ∧ apiDefault "name" = none := by decide
 
 end BSE.Props.C16
